@@ -171,8 +171,8 @@ def entries : List (String × IO UInt32) :=
    ("C16open0", runModel (mk (LocalSid.proto false) parseOpen)),
    ("C16par", runModel (mk (Params.proto true) parseParams)),
    ("C16par0", runModel (mk (Params.proto false) parseParams)),
-   ("C16keys", runModel (mk Keys.proto parseKeys)),
-   ("C16keys1", runModel (mk Keys.proto parseKeys)),
+   ("C16keys", runModel (mk (Keys.proto false) parseKeys)),
+   ("C16keys1", runModel (mk (Keys.proto true) parseKeys)),
    ("C16dg", runModel (mk Dgram.proto parseDgram)),
    ("C16aa", runModel aaModel)]
 
